@@ -674,7 +674,7 @@ func init() {
 		}
 		// ---------------------------------------------------------------- F. PE checksum
 		type ckSpec struct{ peStart, size int }
-		for _, ks := range []ckSpec{{0x80, 4608}, {0x80, 4607}, {0xf8, 70001}, {0x80, 2}, {0x80, 300}, {32680, 40000}, {32678, 40001}, {0, 1000}, {600, 1000}} {
+		for _, ks := range []ckSpec{{0x80, 4608}, {0x80, 4607}, {0xf8, 70001}, {0x80, 2}, {0x80, 300}, {32680, 40000}, {32678, 40001}, {0, 1000}, {600, 1000}, {129, 1000}} {
 			seed := r.Next()
 			data := genData(seed, ks.size)
 			P := ks.peStart + 88
